@@ -43,7 +43,7 @@ def main(argv):
                 p = subprocess.run([PY, '-m', 'pytest', '-q', '-p', 'no:cacheprovider', '--timeout=900', '-x'], cwd=repo,
                                    env={**os.environ, 'PYTHONPATH': repo}, capture_output=True, text=True)
                 tests = 'pass' if p.returncode == 0 else 'FAIL'
-            env = {**os.environ, 'VERIF_REPO': repo}
+            env = {**os.environ, 'VERIF_REPO': repo, 'VERIF_EVIDENCE_DIR': os.path.join(repo, '_evidence')}
             p = subprocess.run([os.path.join(HERE, 'check'), m['property'], 'quick'], cwd=HERE, env=env, capture_output=True, text=True)
             first = [l for l in p.stdout.splitlines() if l.startswith(('VIOLATION', 'OK', 'HARNESS'))]
             detail = [l for l in p.stdout.splitlines() if l.startswith('  oracle=')]
